@@ -107,6 +107,7 @@ type Interp struct {
 	quotedOf map[string]Term
 	rtypes   map[string]*Value
 	ordTerms []Term
+	blobStrs map[int]Term
 	lockCount map[*Value]int
 }
 
@@ -1054,7 +1055,16 @@ func (in *Interp) stringToBytes(t Term) Slice {
 func (in *Interp) bytesToString(s Slice) Term {
 	if s.Seq != nil {
 		if s.Seq.Blob != nil {
-			panic(abort("string(blob)"))
+			// the text of a structured document is opaque: one String per blob
+			if in.blobStrs == nil {
+				in.blobStrs = map[int]Term{}
+			}
+			t, ok := in.blobStrs[s.Seq.Blob.ID]
+			if !ok {
+				t = in.freshStr("blobtext")
+				in.blobStrs[s.Seq.Blob.ID] = t
+			}
+			return t
 		}
 		return s.Seq.T
 	}
